@@ -18,7 +18,8 @@ outcomes of an `ultragraph` mutator; Boolean atoms) and let `simp` evaluate both
 set_option linter.unusedSimpArgs false
 set_option linter.unusedVariables false
 namespace C09Gen
-open Spec Spec.Context Model Model.UGraph Model.Ctx
+open Spec Spec.Context Model Model.Ctx
+open Model.UGraph hiding Res Res.isOk Res.toOption Res.ok Res.err
 open Spec.DiGraph (Out)
 open Gen.Ctx (Exec Res mUpdate)
 
